@@ -115,6 +115,8 @@ type vscChain struct {
 	badSig  [][]byte
 	// the operator pinned another chain hash than the one of this chain
 	unpinned bool
+	// the self-signed chain of a LyingInfo peer: own key and genesis seed, same id / period / genesis time / scheme
+	liar *vscChain
 }
 
 var vscChains = map[string]*vscChain{}
@@ -135,6 +137,18 @@ func vscGetChain(name string) (*vscChain, error) {
 	if c, ok := vscChains[name]; ok {
 		return c, nil
 	}
+	c, err := vscMakeChain(name, "vsc genesis seed ")
+	if err != nil {
+		return nil, err
+	}
+	if c.liar, err = vscMakeChain(name, "vsc liar's genesis seed "); err != nil {
+		return nil, err
+	}
+	vscChains[name] = c
+	return c, nil
+}
+
+func vscMakeChain(name, seedLabel string) (*vscChain, error) {
 	sch, err := crypto.SchemeFromName(name)
 	if err != nil {
 		return nil, err
@@ -146,7 +160,7 @@ func vscGetChain(name string) (*vscChain, error) {
 	}
 	pri, pub := mk()
 	opri, opub := mk()
-	seed := sha256.Sum256([]byte("vsc genesis seed " + name))
+	seed := sha256.Sum256([]byte(seedLabel + name))
 	c := &vscChain{sch: sch, pub: pub.Commit(), seed: seed[:]}
 	c.info = &pchain.Info{PublicKey: pub.Commit(), ID: vscBeaconID, Period: vscPeriod, Scheme: name, GenesisTime: 1000, GenesisSeed: seed[:]}
 	c.beacons = []*common.Beacon{chain.GenesisBeacon(seed[:])}
@@ -167,7 +181,6 @@ func vscGetChain(name string) (*vscChain, error) {
 		c.beacons = append(c.beacons, b)
 		c.badSig = append(c.badSig, bad)
 	}
-	vscChains[name] = c
 	return c, nil
 }
 
@@ -312,6 +325,13 @@ func (h *vscHarness) script(kind string, k int, from uint64, hd uint64) (items [
 	for pos := 0; ; pos++ {
 		r := from + uint64(pos)
 		switch kind {
+		case "LyingInfo": // the peer's own self-signed chain
+			if r > hd {
+				return items, "block"
+			}
+			b := h.ch.liar.clone(r)
+			items = append(items, vscItem{t: "forged", round: r, pkt: &drand.BeaconPacket{PreviousSignature: b.PreviousSig, Round: b.Round,
+				Signature: b.Signature, Metadata: &drand.Metadata{BeaconID: vscBeaconID}}})
 		case "Honest":
 			if r > hd {
 				return items, "block"
@@ -386,7 +406,19 @@ func (c *vscClient) ListBeaconIDs(context.Context, net.Peer) (*drand.ListBeaconI
 	return nil, errors.New("vsc: not implemented")
 }
 func (c *vscClient) ChainInfo(_ context.Context, p net.Peer, _ *drand.ChainInfoRequest) (*drand.ChainInfoPacket, error) {
-	c.h.tr.Emit("Progress", vlib.E{"what": "chaininfo", "peer": p.Address()})
+	lying := false
+	for i, pt := range c.h.sc.Peers {
+		if vscPeerAddr(i+1) == p.Address() && pt.First == "LyingInfo" {
+			lying = true
+		}
+	}
+	c.h.tr.Emit("Progress", vlib.E{"what": "chaininfo", "peer": p.Address(), "lying": lying})
+	if lying {
+		// own public key and genesis seed, but the hash FIELD copied from the genuine chain
+		pkt := c.h.ch.liar.info.ToProto(nil)
+		pkt.Hash = c.h.ch.info.Hash()
+		return pkt, nil
+	}
 	return c.h.ch.info.ToProto(nil), nil
 }
 
@@ -878,6 +910,9 @@ func vscFollowBuiltin() []vscScenario {
 				Peers: []vscPeerType{vscPT("WrongRound", "WrongRound", 1, 8), vscPT("WrongRound", "WrongRound", 1, 8), vscPT("WrongRound", "WrongRound", 1, 8)}},
 			vscScenario{Name: "follow-double-dispatch-" + c, Chained: chained, Start: 0, Target: 3, Dispatch: []uint64{3, 4, 5},
 				Peers: []vscPeerType{H(6), H(6), H(6)}},
+			// the lying peer is listed first: as coded the last decodable chain info wins and its hash is recomputed
+			vscScenario{Name: "follow-lying-info-" + c, Chained: chained, Start: 0, Target: 3,
+				Peers: []vscPeerType{vscPT("LyingInfo", "LyingInfo", 0, 6), H(6), H(6)}},
 			vscScenario{Name: "follow-badhash-" + c, Chained: chained, Start: 0, Target: 3, BadHash: true, Peers: []vscPeerType{H(6), H(6), H(6)}},
 		)
 	}
